@@ -105,8 +105,16 @@ EvictionSound ==
 
 \* C07: once the shell holds nothing that could still be resolved, the command is done
 Settled == \A r \in DOMAIN reqs : ~(reqs[r].senderAlive /\ reqs[r].kind # "never")
+\* (a task that waits for a message on a task-to-task channel somebody can still send on waits for
+\* another task, not for the shell: the guarantee is about tasks that wait on shell requests only)
+ChanWait(t) ==
+  LET T == tasks[t] IN
+  /\ T.pc <= Len(T.code) /\ IsWait(T.code[T.pc]) /\ T.ls # <<>>
+  /\ LET L == LeavesOf(T.code[T.pc]) IN
+     \E i \in DOMAIN L : L[i].k = "recv" /\ ~T.ls[i].done /\ reqs[T.ls[i].rid].tx # {}
 DoneWhenSettled ==
-  (pidx # 0 /\ ~needTake /\ Settled) => (LiveIn(St, RootKey) = {} /\ cmds[RootKey].out = {})
+  (pidx # 0 /\ ~needTake /\ Settled /\ ~(\E t \in Live(St) : ChanWait(t)))
+     => (LiveIn(St, RootKey) = {} /\ cmds[RootKey].out = {})
 
 \* C06: cancelled work never emits again
 NoOutputAfterCancel ==
